@@ -1,26 +1,17 @@
-(* C18 - wire format: run_C18 : sx -> sx.
+(* C18 - wire format: run_C18 : sx -> sx, for the code that is in /repo now
+   (cfg_now; there is no variant selector on the wire).
      (1 frags)                 split_lines            -> ((frag ...) ...)
      (2 style frags)           to_text, len, explode, to_formatted_text(style=) -> (text len (frag ...) (frag ...))
-     (3 cfg s)                 ANSI(s)                -> (0 (frag ...)) | (err)
-     (4 cfg (part ...) (v ...))  ANSI template        -> likewise
-     (5 cfg s)                 ansi_escape / html_escape -> (str str)
-     (6 cfg s)                 HTML(s)                -> (0 (frag ...)) | (err)
-     (7 cfg (part ...) (v ...))  HTML template        -> likewise
-   cfg = (b b b b b b); frag = (style text rest). *)
+     (3 s)                     ANSI(s)                -> (0 (frag ...)) | (err)
+     (4 (part ...) (v ...))    ANSI template          -> likewise
+     (5 s)                     ansi_escape / html_escape -> (str str)
+     (6 s)                     HTML(s)                -> (0 (frag ...)) | (err)
+     (7 (part ...) (v ...))    HTML template          -> likewise
+   frag = (style text rest). *)
 From Coq Require Import ZArith List Bool.
 From PTK Require Import Lib.Sx Lib.Py Model.C18_Fragments Model.C18_Ansi Model.C18_Html.
 Import ListNotations.
 Open Scope Z_scope.
-
-Definition dec_cfg (s : sx) : option cfg :=
-  match s with
-  | L [a; b; c; d; e; f] =>
-      match as_bool a, as_bool b, as_bool c, as_bool d, as_bool e, as_bool f with
-      | Some a', Some b', Some c', Some d', Some e', Some f' => Some (mkcfg a' b' c' d' e' f')
-      | _, _, _, _, _, _ => None
-      end
-  | _ => None
-  end.
 
 Definition dec_strs (s : sx) : option (list str) :=
   match s with L l => map_opt as_str l | _ => None end.
@@ -41,32 +32,32 @@ Definition run_C18 (c : sx) : sx :=
              enc_frags (apply_style st' frs)]
       | _, _ => bad_case
       end
-  | L [A 3; k; s] =>
-      match dec_cfg k, as_str s with
-      | Some k', Some s' => enc_res (ansi_parse k' s')
+  | L [A 3; s] =>
+      match as_str s with
+      | Some s' => enc_res (ansi_parse cfg_now s')
+      | None => bad_case
+      end
+  | L [A 4; ps; vs] =>
+      match dec_strs ps, dec_strs vs with
+      | Some ps', Some vs' =>
+          if len ps' =? len vs' + 1 then enc_res (ansi_template cfg_now ps' vs') else bad_case
       | _, _ => bad_case
       end
-  | L [A 4; k; ps; vs] =>
-      match dec_cfg k, dec_strs ps, dec_strs vs with
-      | Some k', Some ps', Some vs' =>
-          if len ps' =? len vs' + 1 then enc_res (ansi_template k' ps' vs') else bad_case
-      | _, _, _ => bad_case
+  | L [A 5; s] =>
+      match as_str s with
+      | Some s' => L [sx_str (ansi_escape cfg_now s'); sx_str (html_escape cfg_now s')]
+      | None => bad_case
       end
-  | L [A 5; k; s] =>
-      match dec_cfg k, as_str s with
-      | Some k', Some s' => L [sx_str (ansi_escape k' s'); sx_str (html_escape k' s')]
+  | L [A 6; s] =>
+      match as_str s with
+      | Some s' => enc_res (html_parse cfg_now s')
+      | None => bad_case
+      end
+  | L [A 7; ps; vs] =>
+      match dec_strs ps, dec_strs vs with
+      | Some ps', Some vs' =>
+          if len ps' =? len vs' + 1 then enc_res (html_template cfg_now ps' vs') else bad_case
       | _, _ => bad_case
-      end
-  | L [A 6; k; s] =>
-      match dec_cfg k, as_str s with
-      | Some k', Some s' => enc_res (html_parse k' s')
-      | _, _ => bad_case
-      end
-  | L [A 7; k; ps; vs] =>
-      match dec_cfg k, dec_strs ps, dec_strs vs with
-      | Some k', Some ps', Some vs' =>
-          if len ps' =? len vs' + 1 then enc_res (html_template k' ps' vs') else bad_case
-      | _, _, _ => bad_case
       end
   | _ => bad_case
   end.
